@@ -87,3 +87,21 @@ add('C08', 'flags-read-with-get', 'pcfg_guesser.py', "program_info['skip_brute']
 add('C08', 'key-not-written', PQF, "        save_config.set('guessing_info', 'min_probability', str(self.min_probability))\n", "", 'fire', 'C08.R5')
 
 VARIANTS = V
+
+# ---- C09 ------------------------------------------------------------------------------------------------------
+add('C09', 'banner-bare-print (pinned defect)', 'lib_guesser/banner_info.py', "    print('',file=sys.stderr)\n    print('''    ____ ", "    print()\n    print('''    ____ ", 'fire', 'C09.R1')
+add('C09', 'loader-diagnostic-to-stdout', GIO, 'print("Error loading digit terminals",file=sys.stderr)', 'print("Error loading digit terminals")', 'fire', 'C09.R1')
+add('C09', 'status-print-to-stdout', 'lib_guesser/status_report.py', 'print("Status Report:",file=sys.stderr)', 'print("Status Report:")', 'fire', 'C09.R1')
+add('C09', 'keypress-prompt', CSF, "        user_input = input()", "        user_input = input('> ')", 'fire', 'C09.R1')
+add('C09', 'stderr-with-flush', CSF, 'print("Exiting...",file=sys.stderr)\n                break', 'print("Exiting...",file=sys.stderr, flush=True)\n                break', 'silent')
+add('C09', 'guess-printed-with-end', PGF, "                print(guess)\n", "                print(guess, end='')\n", 'fire', 'C09.R1')
+add('C09', 'limit-lt-0', PGF, "                        limit = limit - 1\n                        if limit <= 0:\n                            return num_guesses\n\n                else:\n                    num_recursive_guesses = self._recursive_guesses(new_guess, pt[1:], limit)\n                    num_guesses += num_recursive_guesses\n                    if limit:",
+    "                        limit = limit - 1\n                        if limit < 0:\n                            return num_guesses\n\n                else:\n                    num_recursive_guesses = self._recursive_guesses(new_guess, pt[1:], limit)\n                    num_guesses += num_recursive_guesses\n                    if limit:", 'fire', 'C09.R2')
+add('C09', 'omen-limit-not-decremented', PGF, "            if limit:\n                limit = limit - 1\n                if limit <= 0:\n                    return num_guesses\n\n            # Update counter used for status reports and save files",
+    "            if limit:\n                if limit <= num_guesses:\n                    return num_guesses\n\n            # Update counter used for status reports and save files", 'fire', 'C09.R2')
+add('C09', 'omen-limit-lt-1', PGF, "            if limit:\n                limit = limit - 1\n                if limit <= 0:\n                    return num_guesses\n\n            # Update counter used for status reports and save files",
+    "            if limit:\n                limit -= 1\n                if limit < 1:\n                    return num_guesses\n\n            # Update counter used for status reports and save files", 'silent')
+add('C09', 'recursive-call-without-limit', PGF, "num_recursive_guesses = self._honeyword_recursive_guess(new_guess, pt[1:], limit)\n                num_guesses += num_recursive_guesses\n                \n", "num_recursive_guesses = self._honeyword_recursive_guess(new_guess, pt[1:])\n                num_guesses += num_recursive_guesses\n                \n", 'fire', 'C09.R3')
+add('C09', 'omen-without-limit', PGF, "            return self.omen_generate_guesses(markov_cracker, limit)\n\n        # If it is a capitalization mask", "            return self.omen_generate_guesses(markov_cracker)\n\n        # If it is a capitalization mask", 'fire', 'C09.R3')
+add('C09', 'restore-omen-without-limit (pinned finding)', PGF, "        return self.omen_generate_guesses(markov_cracker, limit)\n\n\n    def save_to_file", "        return self.omen_generate_guesses(markov_cracker)\n\n\n    def save_to_file", 'fire', 'C09.R3')
+add('C09', 'session-subtracts-one', CSF, "                    limit = limit - num_generated_guesses\n                    if limit <= 0:\n                        print(\"Limit reached. Exiting...\",file=sys.stderr)\n                        break", "                    limit = limit - 1\n                    if limit <= 0:\n                        print(\"Limit reached. Exiting...\",file=sys.stderr)\n                        break", 'fire', 'C09.R2')
